@@ -123,7 +123,7 @@ PROPS = {
         'theorems': 'Properties/C12', 'obligation_files': ['Obligations/ObShape'],
         'profiles': [SAO, SAOLONG],
         'projection': ['order.Order#5', 'order.Order#6', 'order.Order#7', 'order.Order#8', 'order.Order+keys', 'sao.TimeoutOrder', 'order.Shard#1'],
-        'monitors': ['sched.timeout_scheduled', 'sched.long_timeout_scheduled', 'sched.timeouts_future'], 'families': ['block', 'sao'],
+        'monitors': ['sched.timeout_scheduled', 'sched.long_timeout_scheduled', 'sched.timeouts_future', 'sel.order_sps_distinct'], 'families': ['block', 'sao'],
     },
     'C13': {
         'theorems': 'Properties/C13', 'obligation_files': [],
